@@ -294,7 +294,8 @@ func (s *Scalar) CSelect(cond uint64, u, v *Scalar) error {
 		return errParamNilScalar
 	}
 
-	scalar.CMove(&s.S, cond, &u.S, &v.S)
+	// The underlying conditional move expects a 0/1 condition: any non-zero word selects v.
+	scalar.CMove(&s.S, scalar.IsNonZero(cond), &u.S, &v.S)
 
 	return nil
 }
